@@ -57,6 +57,11 @@ def basics(ctx, a, kind, foreign=True):
 
 
 def _frame(fr_name):
+    if fr_name.startswith('dir:'):
+        # an explicit lattice direction (zero components and sign patterns matter for canonical-sign hashing)
+        d = tuple(F(x) for x in fr_name[4:].split(','))
+        w = next(c for c in (R.cross(d, (F(0), F(0), F(1))), R.cross(d, (F(1), F(0), F(0)))) if any(c))
+        return (F(1, 2), F(-1, 4), F(1)), d, w, R.cross(d, w)
     e1, e2, e3 = B.frame_vectors(fr_name)
     return (F(1, 2), F(-1, 4), F(1)), e1, e2, e3
 
@@ -208,6 +213,11 @@ def families(tier, seed):
             fams.append(Family('line/%s/%s' % (fr, tag), fam_line, (fr, miss), must_reach=('ne' if miss else 'eq',)))
             fams.append(Family('plane/%s/%s' % (fr, tag), fam_plane, (fr, miss), must_reach=('ne' if miss else 'eq',)))
             fams.append(Family('segment-halfline-point-vector/%s/%s' % (fr, tag), fam_seg_half, (fr, miss), must_reach=('ne' if miss else 'eq',)))
+    # directions / normals with zero components in every position and both signs of the leading component
+    dirs = ['2,0,-1', '-3,0,4', '0,2,-1', '0,-1,2', '1,-2,0', '0,0,-1', '-1,0,0', '0,-2,0']
+    for dname in (dirs[:4] if tier == 'quick' else dirs):
+        fams.append(Family('line/dir:%s/same-set' % dname, fam_line, ('dir:' + dname, False), must_reach=('eq',)))
+        fams.append(Family('plane/dir:%s/same-set' % dname, fam_plane, ('dir:' + dname, False), must_reach=('eq',)))
     for sh, fr in ([('tri', 'axis'), ('quad', 'oblique'), ('penta', 'axis')] if tier == 'quick' else
                    [(s, f) for s in ('tri', 'quad', 'penta', 'hexa') for f in ('axis', 'oblique', 'pyth3')]):
         fams.append(Family('polygon/%s@%s' % (sh, fr), fam_polygon, (sh, fr, tier, seed), must_reach=('ok',)))
